@@ -141,10 +141,11 @@ type contResult struct {
 	prepared    bool
 	twoPrepared bool
 	learntOnly  bool
+	nearCutoff  bool
 }
 
 // continuation replays the prefix and then runs one constructed timely continuation.
-func continuation(p qbftsim.Prog, alt int) contResult {
+func continuation(p qbftsim.Prog, alt int, forward bool) contResult {
 	var cr contResult
 	s := qbftsim.New(p)
 	onEv := func(ev *qbftsim.Event) bool {
@@ -175,7 +176,8 @@ func continuation(p qbftsim.Prog, alt int) contResult {
 	}
 	cr.lagging = len(rounds) >= 2
 	cr.twoPrepared = len(roots) >= 2
-	s.Logf("---- switch point (alt %d) ----", alt)
+	s.Logf("---- switch point (alt %d, forward accepted certificates=%v) ----", alt, forward)
+	s.ForwardAccepted = forward
 	var order func([]*qbftsim.PoolMsg) []*qbftsim.PoolMsg
 	switch {
 	case alt == 1: // highest prepared round-changes first
@@ -211,11 +213,18 @@ func continuation(p qbftsim.Prog, alt int) contResult {
 			s.StartOp(id)
 		}
 	}
+	bound := fx.F(p.N) + 3
 	startRound := specqbft.Round(1)
 	for _, id := range s.Correct {
 		if inst := s.Inst(id); inst != nil && inst.State.Round > startRound {
 			startRound = inst.State.Round
 		}
+	}
+	if int(startRound)+bound >= instance.CutoffRound-1 {
+		// too close to the round cut-off for f+3 further rounds to exist: outside the statement's premise, not judged
+		cr.ok, cr.nearCutoff = true, true
+		cr.log = s.Dump()
+		return cr
 	}
 	allDecided := func() bool {
 		for _, id := range s.Correct {
@@ -225,7 +234,6 @@ func continuation(p qbftsim.Prog, alt int) contResult {
 		}
 		return true
 	}
-	bound := fx.F(p.N) + 3
 	for iter := 0; ; iter++ {
 		s.FlushCorrect(order, onEv)
 		if cr.stepFail != nil {
@@ -292,7 +300,7 @@ func continuation(p qbftsim.Prog, alt int) contResult {
 
 func runCont(c ContProg) *prog.Result {
 	res := &prog.Result{}
-	cr := continuation(c.Prefix, 0)
+	cr := continuation(c.Prefix, 0, false)
 	if cr.stepFail != nil {
 		res.Fail = &prog.Failure{Sig: cr.stepFail.Sig, Msg: cr.stepFail.Msg + "\nlog:\n" + cr.log}
 		return res
@@ -301,7 +309,7 @@ func runCont(c ContProg) *prog.Result {
 	first := cr
 	if !cr.ok {
 		for _, a := range append([]int{1, 2, 3}, c.Alts...) {
-			alt := continuation(c.Prefix, a)
+			alt := continuation(c.Prefix, a, false)
 			tried++
 			if alt.ok {
 				cr = alt
@@ -317,10 +325,31 @@ func runCont(c ContProg) *prog.Result {
 		case first.twoPrepared:
 			sig += ":two-distinct-prepared-values"
 		}
+		if first.learntOnly && prog.IsKnown(sig) {
+			// listed known finding: excluded by letting the pubsub layer of the operators that accepted a certificate
+			// forward it (gossip), then the search goes on behind it
+			prog.KnownHit("TestPropContinuation", sig)
+			fw := continuation(c.Prefix, 0, true)
+			if fw.stepFail != nil {
+				res.Fail = &prog.Failure{Sig: fw.stepFail.Sig, Msg: fw.stepFail.Msg + "\nlog:\n" + fw.log}
+				return res
+			}
+			if !fw.ok {
+				res.Fail = prog.Failf("C07:no-decision-even-with-certificate-forwarding", "no decision although accepted certificates were forwarded (N=%d byz=%v): %s\nlog:\n%s", c.Prefix.N, c.Prefix.Byz, fw.why, fw.log)
+				return res
+			}
+			res.Classes = []string{"known-wedge:decided-and-silent (decides once the certificate is forwarded)"}
+			res.NonTrivial = true
+			return res
+		}
 		res.Fail = prog.Failf(sig, "no decision in %d constructed timely continuations (N=%d byz=%v): %s\nlog of the canonical one:\n%s", tried, c.Prefix.N, c.Prefix.Byz, first.why, first.log)
 		return res
 	}
-	res.NonTrivial = first.lagging || first.prepared
+	res.NonTrivial = (first.lagging || first.prepared) && !cr.nearCutoff
+	if cr.nearCutoff {
+		res.Classes = []string{"switch-point-too-close-to-cutoff (not judged)"}
+		return res
+	}
 	res.Classes = []string{fmt.Sprintf("further-rounds=%d", cr.rounds), fmt.Sprintf("continuations-tried=%d", tried)}
 	if first.lagging {
 		res.Classes = append(res.Classes, "operators-in-different-rounds")
